@@ -1317,4 +1317,113 @@ theorem V6.fromStr_spelling_plain (input addr : Str) (ip : Nat) (hsp : IP.IsV6Sp
   simp only [if_neg hg, strip_noSpace _ hea, hmatch, bind, Except.bind, hstd, hnet]
   rfl
 
+/-! ### RFC 5952: `str(IPv6Address(n))` is the canonical text -/
+
+theorem compressWith_eq_shape (st : Run) (X : List Str) (s : Nat) (hs : st.bestStart = some s) (hgt : st.bestLen > 1)
+    (hle : s + st.bestLen ≤ X.length) :
+    compressWith st X = shape (X.take s) (X.drop (s + st.bestLen)) := by
+  unfold compressWith shape
+  simp only [hgt, if_true, hs, Option.getD_some]
+  generalize st.bestLen = l at *
+  have htake : ∀ Y : List Str, (X ++ Y).take s = X.take s := fun Y => by
+    rw [List.take_append_of_le_length (by omega)]
+  by_cases hstop : s + l = X.length
+  · have hd1 : X.drop (s + l) = [] := by rw [hstop]; simp
+    have hd2 : (X ++ [[]]).drop (s + l) = [[]] := by rw [hstop]; simp
+    simp only [hstop, if_true, htake]
+    rw [← hstop, hd1, hd2]
+    by_cases h0 : s = 0
+    · subst h0; simp
+    · have : X.take s ≠ [] := by
+        intro e
+        rcases List.take_eq_nil_iff.mp e with h | h
+        · exact h0 h
+        · rw [h] at hle; simp at hle; omega
+      simp [h0, this]
+  · have hd : X.drop (s + l) ≠ [] := by
+      intro e
+      have := congrArg List.length e
+      simp at this; omega
+    simp only [hstop, if_false, hd]
+    by_cases h0 : s = 0
+    · subst h0; simp
+    · have : X.take s ≠ [] := by
+        intro e
+        rcases List.take_eq_nil_iff.mp e with h | h
+        · exact h0 h
+        · rw [h] at hle; simp at hle; omega
+      simp [h0, this]
+
+/-- `IsShortened` on the zero pattern, with bounded quantifiers -/
+def zeroRun (zs : List Bool) (s k : Nat) : Bool :=
+  decide (2 ≤ k) && decide (s + k ≤ 8) && (List.range 8).all (fun i => !(decide (s ≤ i) && decide (i < s + k)) || zs.getD i false)
+
+def shortenedB (zs : List Bool) (s l : Nat) : Bool :=
+  zeroRun zs s l &&
+  (List.range 8).all (fun s' => (List.range 9).all (fun k => !zeroRun zs s' k || decide (k < l) || (decide (k = l) && decide (s ≤ s'))))
+
+theorem runLoop_canonical : ∀ b0 b1 b2 b3 b4 b5 b6 b7 : Bool,
+    let zs := [b0, b1, b2, b3, b4, b5, b6, b7]
+    let st := runLoop {} 0 zs
+    (if st.bestLen > 1 then shortenedB zs (st.bestStart.getD 9) st.bestLen
+     else (List.range 8).all (fun s => (List.range 9).all (fun k => !zeroRun zs s k))) = true := by
+  decide
+
+
+/-- the choice made by `_compress_hextets`, on the zero pattern of the eight groups, and the text it yields -/
+theorem strV6_choice (n : Nat) :
+    let X := (hextets n).map toHex
+    let zs := X.map (· == ['0'])
+    let st := runLoop {} 0 zs
+    (st.bestLen > 1 → ∃ s, st.bestStart = some s ∧ shortenedB zs s st.bestLen = true ∧
+      strV6 n = join [':'] (X.take s) ++ ':' :: ':' :: join [':'] (X.drop (s + st.bestLen))) ∧
+    (¬ st.bestLen > 1 → (∀ s k, s < 8 → k < 9 → zeroRun zs s k = false) ∧ strV6 n = join [':'] X) := by
+  intro X zs st
+  have hc := runLoop_canonical (toHex (n / 2 ^ 112 % 65536) == ['0']) (toHex (n / 2 ^ 96 % 65536) == ['0'])
+    (toHex (n / 2 ^ 80 % 65536) == ['0']) (toHex (n / 2 ^ 64 % 65536) == ['0']) (toHex (n / 2 ^ 48 % 65536) == ['0'])
+    (toHex (n / 2 ^ 32 % 65536) == ['0']) (toHex (n / 2 ^ 16 % 65536) == ['0']) (toHex (n % 65536) == ['0'])
+  have hzs : zs = [toHex (n / 2 ^ 112 % 65536) == ['0'], toHex (n / 2 ^ 96 % 65536) == ['0'],
+      toHex (n / 2 ^ 80 % 65536) == ['0'], toHex (n / 2 ^ 64 % 65536) == ['0'], toHex (n / 2 ^ 48 % 65536) == ['0'],
+      toHex (n / 2 ^ 32 % 65536) == ['0'], toHex (n / 2 ^ 16 % 65536) == ['0'], toHex (n % 65536) == ['0']] := by
+    simp [zs, X, hextets]
+  simp only at hc
+  rw [← hzs] at hc
+  have hstr : strV6 n = join [':'] (compressWith st X) := rfl
+  constructor
+  · intro hgt
+    have hst : (runLoop {} 0 zs).bestLen > 1 := hgt
+    rw [if_pos hst] at hc
+    cases hs : st.bestStart with
+    | none =>
+      exfalso
+      have hs' : (runLoop {} 0 zs).bestStart = none := hs
+      rw [hs'] at hc
+      simp [shortenedB, zeroRun] at hc
+      omega
+    | some s =>
+      have hs' : (runLoop {} 0 zs).bestStart = some s := hs
+      rw [hs'] at hc
+      simp only [Option.getD_some] at hc
+      refine ⟨s, rfl, hc, ?_⟩
+      have hle : s + st.bestLen ≤ X.length := by
+        have : zeroRun zs s st.bestLen = true := by
+          unfold shortenedB at hc
+          exact (Bool.and_eq_true_iff.mp hc).1
+        unfold zeroRun at this
+        simp only [Bool.and_eq_true, decide_eq_true_eq] at this
+        have hx : X.length = 8 := by simp [X, hextets]
+        omega
+      rw [hstr, compressWith_eq_shape st X s hs hgt hle, join_shape]
+  · intro hng
+    have hst : ¬ (runLoop {} 0 zs).bestLen > 1 := hng
+    rw [if_neg hst] at hc
+    refine ⟨?_, ?_⟩
+    · intro s k hs hk
+      rw [List.all_eq_true] at hc
+      have := hc s (List.mem_range.mpr hs)
+      rw [List.all_eq_true] at this
+      have := this k (List.mem_range.mpr hk)
+      simpa using this
+    · rw [hstr]; unfold compressWith; rw [if_neg hng]
+
 end Ccp.IPText
